@@ -153,6 +153,174 @@ def vLatin : V → String
   | .str cs => "s" ++ Hex.encode (cs.map fun c => UInt8.ofNat c)
   | _ => "?str"
 
+/-! a generic rendering of `PyU.V` (the Python side renders the real objects the same way) -/
+mutual
+def vShow : PyU.V → String
+  | .none => "N"
+  | .bool b => if b then "T" else "F"
+  | .int n => "i" ++ toString n
+  | .bytes b => "b" ++ Hex.encode b
+  | .str cs => "s" ++ ".".intercalate (cs.map toString)
+  | .list xs => "L[" ++ vShowL xs ++ "]"
+  | .tuple xs => "U[" ++ vShowL xs ++ "]"
+  | .dict ks vs => "D[" ++ vShowL ks ++ "|" ++ vShowL vs ++ "]"
+  | .bytesIO d p => "O" ++ Hex.encode d ++ ":" ++ toString p
+  | .enum c v => "E" ++ toString c.cid ++ ":" ++ toString v
+termination_by structural x => x
+def vShowL : List PyU.V → String
+  | [] => ""
+  | [x] => vShow x
+  | x :: y :: r => vShow x ++ ";" ++ vShowL (y :: r)
+termination_by structural x => x
+end
+
+/-! parser for the same notation (operands of the `pyu` stream) -/
+def enumOfCid : Nat → Option PyU.EnumCls
+  | 0 => some Gen.PyBeacon.TransformStep
+  | 1 => some Gen.PyBeacon.InjectExecutor
+  | _ => none
+
+def isHexChar (c : Char) : Bool := c.isDigit || ('a' ≤ c && c ≤ 'f')
+
+mutual
+partial def pV : List Char → Option (PyU.V × List Char)
+  | 'N' :: r => some (.none, r)
+  | 'T' :: r => some (.bool true, r)
+  | 'F' :: r => some (.bool false, r)
+  | 'i' :: r =>
+    let (ds, r') := r.span (fun c => c.isDigit || c == '-')
+    (String.ofList ds).toInt?.map fun n => (.int n, r')
+  | 'b' :: r =>
+    let (hs, r') := r.span isHexChar
+    (Hex.decodeChars hs).map fun b => (.bytes b, r')
+  | 's' :: r =>
+    let (ds, r') := r.span (fun c => c.isDigit || c == '.')
+    if ds.isEmpty then some (.str [], r')
+    else (((String.ofList ds).splitOn ".").mapM String.toNat?).map fun cs => (.str cs, r')
+  | 'L' :: '[' :: r =>
+    match pL r [] with
+    | some (xs, ']' :: r') => some (.list xs, r')
+    | _ => none
+  | 'U' :: '[' :: r =>
+    match pL r [] with
+    | some (xs, ']' :: r') => some (.tuple xs, r')
+    | _ => none
+  | 'D' :: '[' :: r =>
+    match pL r [] with
+    | some (ks, '|' :: r') =>
+      match pL r' [] with
+      | some (vs, ']' :: r'') => some (.dict ks vs, r'')
+      | _ => none
+    | _ => none
+  | 'O' :: r =>
+    let (hs, r') := r.span isHexChar
+    match Hex.decodeChars hs, r' with
+    | some b, ':' :: r'' =>
+      let (ds, r3) := r''.span Char.isDigit
+      (String.ofList ds).toNat?.map fun p => (.bytesIO b p, r3)
+    | _, _ => none
+  | 'E' :: r =>
+    let (cs, r') := r.span Char.isDigit
+    match (String.ofList cs).toNat?.bind enumOfCid, r' with
+    | some cls, ':' :: r'' =>
+      let (ds, r3) := r''.span (fun c => c.isDigit || c == '-')
+      (String.ofList ds).toInt?.map fun n => (.enum cls n, r3)
+    | _, _ => none
+  | _ => none
+/-- items separated by `;` up to (not including) the closing `]` / `|` -/
+partial def pL : List Char → List PyU.V → Option (List PyU.V × List Char)
+  | ']' :: r, acc => some (acc.reverse, ']' :: r)
+  | '|' :: r, acc => some (acc.reverse, '|' :: r)
+  | cs, acc =>
+    match pV cs with
+    | some (v, ';' :: r) => pL r (v :: acc)
+    | some (v, r) => some ((v :: acc).reverse, r)
+    | none => none
+end
+
+def vTok (s : String) : Option PyU.V :=
+  match pV s.toList with
+  | some (v, []) => some v
+  | _ => none
+
+def showB (r : Py Bool) : String := showPy (fun b => vShow (.bool b)) r
+
+/-- `pyu <op> <operands>`: one operation of the run-time library `PyU` on operands in the notation above -/
+def pyuStep : List String → String
+  | [op, a] =>
+    match vTok a with
+    | none => "bad-op"
+    | some a =>
+      match op with
+      | "truthy" => vShow (.bool (PyU.truthy a))
+      | "isnone" => vShow (.bool (PyU.isNone a))
+      | "neg" => showPy vShow (PyU.neg a)
+      | "len" => showPy vShow (PyU.len a)
+      | "unpack2" => showPy (fun p => vShow (.tuple [p.1, p.2])) (PyU.unpack2 a)
+      | "unpack3" => showPy (fun p => vShow (.tuple [p.1, p.2.1, p.2.2])) (PyU.unpack3 a)
+      | "newbio" => showPy vShow (PyU.newBytesIO a)
+      | "decutf8" => showPy vShow (PyU.decodeUtf8 a)
+      | "declatin1" => showPy vShow (PyU.decodeLatin1 a)
+      | "fmt" => showPy (fun t => vShow (.str t)) (PyU.fmt a "")
+      | "fmtx" => showPy (fun t => vShow (.str t)) (PyU.fmt a "x")
+      | "name" => showPy vShow (PyU.getAttr a "name")
+      | "value" => showPy vShow (PyU.getAttr a "value")
+      | "enum0" => showPy vShow (PyU.enumCall Gen.PyBeacon.TransformStep a)
+      | "enum1" => showPy vShow (PyU.enumCall Gen.PyBeacon.InjectExecutor a)
+      | "u32be" => showPy vShow (Gen.PyBeacon.u32be a)
+      | "mkdict" =>
+        match a with
+        | .list items =>
+          showPy vShow (PyU.mkDict (items.filterMap fun it => match it with | .tuple [k, v] => some (k, v) | _ => none))
+        | _ => "bad-op"
+      | _ => "bad-op"
+  | [op, a, b] =>
+    match vTok a, vTok b with
+    | some a, some b =>
+      match op with
+      | "eq" => vShow (.bool (PyU.eq a b))
+      | "lt" => showB (PyU.lt a b)
+      | "le" => showB (PyU.le a b)
+      | "gt" => showB (PyU.gt a b)
+      | "ge" => showB (PyU.ge a b)
+      | "add" => showPy vShow (PyU.add a b)
+      | "iadd" => showPy vShow (PyU.iadd a b)
+      | "sub" => showPy vShow (PyU.sub a b)
+      | "mul" => showPy vShow (PyU.mul a b)
+      | "floordiv" => showPy vShow (PyU.floordiv a b)
+      | "mod" => showPy vShow (PyU.mod a b)
+      | "band" => showPy vShow (PyU.band a b)
+      | "bor" => showPy vShow (PyU.bor a b)
+      | "bxor" => showPy vShow (PyU.bxor a b)
+      | "shl" => showPy vShow (PyU.shl a b)
+      | "shr" => showPy vShow (PyU.shr a b)
+      | "contains" => showB (PyU.contains a b)
+      | "getitem" => showPy vShow (PyU.getItem a b)
+      | "append" => showPy vShow (PyU.append a b)
+      | "read" => showPy (fun p => vShow (.tuple [p.1, p.2])) (PyU.read a b)
+      | "rstrip" => showPy vShow (PyU.rstrip a b)
+      | "partition" => showPy vShow (PyU.partition a b)
+      | _ => "bad-op"
+    | _, _ => "bad-op"
+  | [op, a, b, c] =>
+    match vTok a, vTok b, vTok c with
+    | some a, some b, some c =>
+      match op with
+      | "slice" => showPy vShow (PyU.slice a b c)
+      | "dictget" => showPy vShow (PyU.dictGet a b c)
+      | _ => "bad-op"
+    | _, _, _ => "bad-op"
+  | _ => "bad-op"
+
+/-- the non-`bytes` arguments of the `g-arg` stream -/
+def argTok : String → Option PyU.V
+  | "none" => some .none
+  | "int" => some (.int 5)
+  | "str" => some (PyU.lit "ab")
+  | "list" => some (.list [.int 1])
+  | "true" => some (.bool true)
+  | _ => none
+
 /-- fuel for the translated loops: every iteration but the last consumes at least one byte -/
 def gFuel (d : Bytes) : Nat := d.length + 2
 
@@ -188,6 +356,25 @@ def gstep : List String → String
   | ["gntb", d] =>
     match bytesTok d with
     | some d => showPy vBytes (Gen.PyBeacon.null_terminated_bytes (.bytes d))
+    | none => "bad-op"
+  | ["garg", fn, kind] =>
+    match argTok kind with
+    | none => "bad-op"
+    | some a =>
+      match fn with
+      | "tr" => showPy vShow (Gen.PyBeacon.parse_transform_binary_default1 5 a)
+      | "rc" => showPy vShow (Gen.PyBeacon.parse_recover_binary 5 a)
+      | "ex" => showPy vShow (Gen.PyBeacon.parse_execute_list 5 a)
+      | "it" => showPy vShow (Gen.PyBeacon.parse_process_injection_transform_steps a)
+      | "gg" => showPy vShow (Gen.PyBeacon.parse_gargle 5 a)
+      | "pv" => showPy vShow (Gen.PyBeacon.parse_pivot_frame a)
+      | "nts" => showPy vShow (Gen.PyBeacon.null_terminated_str a)
+      | "ntb" => showPy vShow (Gen.PyBeacon.null_terminated_bytes a)
+      | _ => "bad-op"
+  | "pyu" :: rest => pyuStep rest
+  | ["member", cid, name] =>
+    match cid.toNat?.bind enumOfCid with
+    | some cls => showPy vShow (PyU.enumMember cls name)
     | none => "bad-op"
   | _ => "bad-op"
 
